@@ -55,6 +55,18 @@ def run(chk):
                 chk.samples.append({"template_file": gen_tmpl.print_file(r.file)[:500], "template": r.tname, "env": r.env,
                                     "rendered": r.got.decode("utf-8", "replace")[:300]})
             lrender.compile_correspondence(chk, files)
+            # to how many of these templates does the fragment theorem (C01_fragment_test_sound) apply?
+            for line in common.run_lines_parallel(common.DRIVER, ["infragment " + common.hx(gen_tmpl.print_file(f).encode("utf-8")) for f in files.values()]):
+                if line.startswith("ok "):
+                    k, n = line[3:].split("/")
+                    chk.count("fragment:template bodies passing the executable test of the proved fragment", int(k))
+                    chk.count("fragment:template bodies", int(n))
+                else:
+                    chk.count("fragment:files the model does not accept")
+    tot = chk.distribution.get("fragment:template bodies", 0)
+    if tot:
+        chk.notes.append("the fragment theorem applies to %d of the %d generated template bodies (extracted test body_in_fragment, proved sound)"
+                         % (chk.distribution.get("fragment:template bodies passing the executable test of the proved fragment", 0), tot))
     return chk.finish(level="proof", level_note=LEVEL_NOTE)
 
 
